@@ -26,6 +26,9 @@ func (cp *CollectingProcess) startTCPServer() {
 			klog.Errorf("Cannot start tls collecting process on %s: %v", cp.address, err)
 			return
 		}
+		// Register the server goroutine before the address is published: an application
+		// which waits for GetAddress() may call Stop() right away.
+		cp.wg.Add(1)
 		cp.updateAddress(listener.Addr())
 		klog.Infof("Started TLS collecting process on %s", cp.netAddress)
 	} else {
@@ -35,11 +38,11 @@ func (cp *CollectingProcess) startTCPServer() {
 			klog.Errorf("Cannot start collecting process on %s: %v", cp.address, err)
 			return
 		}
+		cp.wg.Add(1)
 		cp.updateAddress(listener.Addr())
 		klog.Infof("Start TCP collecting process on %s", cp.netAddress)
 	}
 
-	cp.wg.Add(1)
 	go func(stopCh chan struct{}) {
 		defer cp.wg.Done()
 		for {
